@@ -12,14 +12,14 @@ RULE = ("for each of the four pairing modules, scalars a, b, a', b' from {0, 1, 
         "and several representatives of infinity: pairing(bG2, aG1) == e0^(ab mod r) with e0 = pairing(G2, G1); "
         "pairing(Q+Q', P) == pairing(Q, P) pairing(Q', P) and the same in P; pairing(-Q, P) == pairing(Q, -P) == "
         "pairing(Q, P)^-1; e0 != 1 and e0^r == 1; infinity in either slot gives FQ12.one(); a right-typed point "
-        "that is not on its curve (coordinate + 1, random coordinates, any scaling) raises ValueError instead of "
+        "that is not on its curve (coordinate + 1, random coordinates, any scaling; the other argument a subgroup point or infinity) raises ValueError instead of "
         "returning a value. Non-trivial = ab != 0 mod r with max(a, b) >= 2^128, an additivity case with "
         "distinct non-zero summands, a scaled representative or an off-curve refusal; distinct by input digest")
 ASSUMPTIONS = ["points are built by the affine model (vf/model/ec.py) from the published generators",
                "which bilinear map is computed is pinned by C12 (optimized == reference); C05 checks the laws"]
 ENGINE = "hypothesis (algebraic laws)"
 _REQ = [f"{law}:{m}" for m in pc.MODULES for law in ("bilinear", "additive", "negation", "order", "infinity", "offcurve")]
-_REQ += ["bilinear:scaled", "bilinear:big_scalars", "infinity:rep"]
+_REQ += ["bilinear:scaled", "bilinear:big_scalars", "infinity:rep", "offcurve:other_argument_infinity"]
 REQUIRED_LABELS = {"quick": _REQ, "thorough": _REQ}
 
 
@@ -155,8 +155,16 @@ def o_offcurve(ctx, case):
     if C.on_curve(g, bad):
         return      # the perturbation landed on the curve (x+1 with the same y never does; random: 1/p)
     scale = pc.unscale(case.get("s"))
-    Q = pc.lib_pt(name, "G2", bad if slot == "Q" else pc.kG(curve, "G2", 3), scale=scale if slot == "Q" else None)
-    Pt = pc.lib_pt(name, "G1", bad if slot == "P" else pc.kG(curve, "G1", 3), scale=scale if slot == "P" else None)
+    opt = name.startswith("optimized")
+    other = case.get("other", "finite")       # the OTHER argument: a subgroup point or infinity
+    rep = case.get("rep", 0)
+    if other == "inf":
+        oQ = pc.lib_pt(name, "G2", None, inf_rep=INF_G2[rep % 3] if opt else None)
+        oP = pc.lib_pt(name, "G1", None, inf_rep=INF_G1[rep % 3] if opt else None)
+    else:
+        oQ, oP = pc.lib_pt(name, "G2", pc.kG(curve, "G2", 3)), pc.lib_pt(name, "G1", pc.kG(curve, "G1", 3))
+    Q = pc.lib_pt(name, "G2", bad, scale=scale) if slot == "Q" else oQ
+    Pt = pc.lib_pt(name, "G1", bad, scale=scale) if slot == "P" else oP
     try:
         out = pc.pm(name).pairing(Q, Pt)
     except ValueError:
@@ -164,7 +172,9 @@ def o_offcurve(ctx, case):
     ctx.check(out is ValueError, "offcurve", "paired", case,
               f"{name}: pairing accepted an off-curve {g} argument ({how}) and returned a value")
     ctx.label(f"offcurve:{name}")
-    ctx.nontrivial(("x", name, k, slot, how, case.get("v"), case.get("s")))
+    if other == "inf":
+        ctx.label("offcurve:other_argument_infinity")
+    ctx.nontrivial(("x", name, k, slot, how, case.get("v"), case.get("s"), other, rep))
     ctx.sample(case, f"offcurve:{name}:{slot}")
 
 
@@ -226,12 +236,14 @@ def t_cheap(ctx, module, n):
         return d
     strat = st.fixed_dictionaries({"module": st.just(name), "k": st.integers(1, 60), "slot": st.sampled_from(["Q", "P"]),
                                    "how": st.sampled_from(["y+1", "x+1", "random"]), "v": v,
+                                   "other": st.sampled_from(["finite", "inf"]), "rep": st.integers(0, 2),
                                    "s": st.one_of(st.none(), st.none()) if not opt else st.none()}).map(fix)
     if opt:
         # scaled off-curve representatives: scaling value of the right field is attached per slot
         sq, sp = _scales(name)
         strat = st.tuples(strat, sq, sp).map(lambda t: dict(t[0], s=t[1] if t[0]["slot"] == "Q" else t[2]))
-    ex = [{"module": name, "k": 2, "slot": s, "how": h, "v": None, "s": None} for s in ("Q", "P") for h in ("y+1", "x+1")]
+    ex = [{"module": name, "k": 2, "slot": s, "how": h, "v": None, "s": None, "other": o, "rep": 1}
+          for s in ("Q", "P") for h in ("y+1", "x+1") for o in ("finite", "inf")]
     drive(ctx, f"off{name}", strat, lambda c: o_offcurve(ctx, c), n, ex)
 
 
